@@ -57,7 +57,7 @@ fn step_json(step: &StepRecord) -> Value {
         "obs": step.obs.iter().map(|o| json!([o.kind, o.a, o.b])).collect::<Vec<_>>(),
         "q": step.snap.queues.iter().map(|(s, n, w)| json!([s, n, w])).collect::<Vec<_>>(),
         "sch": step.snap.schedule, "thr": step.snap.threads, "max": step.snap.max,
-        "en": step.enabled, "locks": step.locks, "fin": step.finished
+        "en": step.enabled, "locks": step.locks, "fin": step.finished, "waited": step.waited
     })
 }
 
